@@ -304,7 +304,14 @@ class TemplateGen:
         else:
             if op in (224, 225) and r.random() < 0.8:
                 out.append(8023 if op == 224 else 8024)
-            out += [op * 1000 + 255] * k
+            markers = [op * 1000 + 255] * k
+            if k >= 1 and self.allow_ops and r.random() < 0.4:
+                # some of the markers while a width/scale/string-width modifier is in force, the rest after its cancellation
+                j = r.randint(1, k - 1) if k >= 2 else 1     # a later marker follows the cancellation when there are two
+                on = r.choice([201129, 201130, 201132, 202129, 202130, 207001, 207002, 208002, 208005])
+                markers = [on] + markers[:j] + [on // 1000 * 1000] + markers[j:]
+                self.features['marker-under-%d' % (on // 1000)] += 1
+            out += markers
             if k == 0:
                 out.append(self.elem())
         if r.random() < 0.2:
